@@ -377,9 +377,10 @@ class Verdict:
             'violations': len(unknown),
         }
         ev['coverage']['known_findings_reported'] = sorted(reported)
-        os.makedirs(os.path.join(VERIF, 'evidence'), exist_ok=True)
-        with open(os.path.join(VERIF, 'evidence', self.pid + '.json'),
-                  'w') as f:
+        evdir = os.environ.get('VERIF_EVIDENCE_DIR') or \
+            os.path.join(VERIF, 'evidence')
+        os.makedirs(evdir, exist_ok=True)
+        with open(os.path.join(evdir, self.pid + '.json'), 'w') as f:
             json.dump(ev, f, indent=1, default=str)
         return rc
 
